@@ -144,11 +144,24 @@ def render_consts():
     lut = [int(x) for x in m.group(1).split(",")]
     marks = [(n, byte_const(ghwc, "GHW_%s_SECTION" % n)) for n in ("SNAPSHOT", "END_SNAPSHOT", "CYCLE", "END_CYCLE", "DIRECTORY", "END_DIRECTORY", "TAILER")]
 
+    def first_chars(result):
+        m = re.search(r"fn parse_first_token\(.*?\n\}", vcd, re.S)
+        if not m:
+            raise core.InfraError("translator: parse_first_token not found")
+        arm = re.search(r"((?:\s*\|?\s*b'.'\s*)+)=> Ok\(FirstTokenResult::%s\)" % result, m.group(0))
+        if not arm:
+            raise core.InfraError("translator: arm %s of parse_first_token not found" % result)
+        return [ord(c) for c in re.findall(r"b'(.)'", arm.group(1))]
+    one_bit = first_chars("OneBitValue")
+    multi_bit = first_chars("MultiBitValue")
+
     def kwt(tab):
         return "[ " + ";\n    ".join("(%s, %d)" % (nl(list(k)), c) for k, c in tab) + " ]"
     extra = "\n(* wellen/src/vcd.rs convert_scope_tpe / convert_var_tpe: keyword -> discriminant of ScopeType / VarType (hierarchy.rs) *)\n"
     extra += "Definition scope_kw_src : list (list N * N) :=\n  %s.\n" % kwt(scope_tab)
     extra += "Definition var_kw_src : list (list N * N) :=\n  %s.\n" % kwt(var_tab)
+    extra += "\n(* wellen/src/vcd.rs parse_first_token: first characters of scalar / vector-real-string value changes *)\n"
+    extra += "Definition one_bit_first_chars_src : list N := %s.\nDefinition multi_bit_first_chars_src : list N := %s.\n" % (nl(one_bit), nl(multi_bit))
     extra += "\n(* wellen/src/ghw/common.rs *)\nDefinition ghw_std_logic_lut : list N := %s.\n" % nl(lut)
     for n, b in marks:
         extra += "Definition ghw_%s_section : list N := %s.\n" % (n.lower(), nl(b))
